@@ -108,6 +108,10 @@ pub struct BuilderPath {
     /// sources have been set, right before `compile()`
     #[serde(default)]
     pub swap_late: bool,
+    /// name a file/directory destination through the deprecated `set_output_path` instead of
+    /// `set_output_mode(OutputMode::SingleFile(..))` (documented as equivalent)
+    #[serde(default)]
+    pub legacy_path: bool,
 }
 
 #[derive(Clone, Debug, Serialize, Deserialize, PartialEq, Default)]
@@ -356,10 +360,14 @@ fn ready_with<B: Backend>(
     bp: &BuilderPath,
     between: &dyn Fn(),
 ) -> Compiler<B, CompilerReady> {
-    let ready = if bp.output_first {
-        add_sources_ready(c.set_output_mode(out_mode(out)), srcs, bp).expect("no sources")
-    } else {
-        add_sources(c, srcs, bp).expect("no sources").set_output_mode(out_mode(out))
+    #[allow(deprecated)]
+    let ready = match (bp.legacy_path, out) {
+        (true, OutSel::File(path)) if bp.output_first => {
+            add_sources_ready(c.set_output_path(path.clone()), srcs, bp).expect("no sources")
+        }
+        (true, OutSel::File(path)) => add_sources(c, srcs, bp).expect("no sources").set_output_path(path.clone()),
+        _ if bp.output_first => add_sources_ready(c.set_output_mode(out_mode(out)), srcs, bp).expect("no sources"),
+        _ => add_sources(c, srcs, bp).expect("no sources").set_output_mode(out_mode(out)),
     };
     between();
     ready
